@@ -122,9 +122,11 @@ class Sym:
         # cheap attempt first: without the single-variable range bounds (fewer polynomials for nlsat); unsat is sound
         nb = [x for x in st.pc if not s._isbound(x)]
         if len(nb) < len(st.pc):
-            r, _ = _check_sat_inproc(nb + list(s.axioms) + [c], max(300, s.timeout // 3))   # in-process: thousands of small branch queries (a fork each costs more than they do)
+            cs_ = _check_sat_inproc if len(st.pc) <= 24 else check_sat   # small branch queries in-process (a fork each costs more than they do); long path conditions under the hard deadline
+            r, _ = cs_(nb + list(s.axioms) + [c], max(300, s.timeout // 3))
             if r == z3.unsat: return False
-        r, _ = _check_sat_inproc(list(st.pc) + list(s.axioms) + [c], s.timeout)
+        cs_ = _check_sat_inproc if len(st.pc) <= 24 else check_sat
+        r, _ = cs_(list(st.pc) + list(s.axioms) + [c], s.timeout)
         return r != z3.unsat
 
     def _isbound(s, x):
